@@ -440,7 +440,8 @@ def run_case(ctx, case):
                 ctx.fail(case, f"after flush {si} the measurement registers {used} are still marked in use "
                                f"(they are handed out again only if released at every flush)")
         res = hostdiff.run_differential(prog, script, fail, ctx.count, on_top=mon, on_nested=mon.nested, step_bound=400000, on_segment=after_flush,
-                                        pipe_kw={"step_limit": 2000000}, check_host_handles=False)
+                                        pipe_kw={"step_limit": 2000000}, check_host_handles=False,
+                                        neighbours="loops" if ctx.evaluations % 3 == 1 else False)
     except hostdiff.Discard as d:
         ctx.count("discarded_" + str(d).split(":")[0].replace(" ", "_"))
         return ctx.case({"kind": case["kind"], "nops": nops, "k": case.get("k"), "depth": case.get("depth"),
